@@ -6,7 +6,7 @@ use super::bytesgen::*;
 use super::corrupt::{needs_isolation, slow_by_count};
 use super::*;
 use crate::engine::*;
-use crate::model::{depths, ref_decode, Gen, S};
+use crate::model::{depths, ref_decode_raw, Gen, S};
 use crate::subjects::Mode;
 use serde_json::json;
 
@@ -41,7 +41,7 @@ impl Scenario for Depth {
         "per case one subject that contains heap containers (Vec, VecDeque, BinaryHeap, LinkedList, BTreeMap, BTreeSet, Box, Rc, Arc, String, bit sequences, recursive Tree/Chain up to 14 levels), one byte string (honest encoding of a wide-but-shallow or deep-but-narrow value, or damaged / truncated / random) and one source; unlimited result R first, then EVERY limit L in 0..=D_hi+2 through the depth wrapper as outermost layer over the drawn source (with optional inner non-binding layers), through T::decode_with_depth_limit on the slice and through decode_all_with_depth_limit with and without a trailing byte; oracle: result(L) in {R, Err}, monotone in L, equal to R for L >= D_hi (every heap container on the deepest path), Err for L < D_lo (containers that are recursed through), consume-all variant rejects trailing bytes; one sub-run per (L, entry point); non-trivial = every sub-run with L < D_hi+1 (a descend_ref call can fail)"
     }
     fn cases(&self, tier: Tier) -> u64 {
-        tiered(tier, 120_000, 12_000_000)
+        tiered(tier, 500_000, 20_000_000)
     }
     fn gen(&self, seed: u64, idx: u64, _tier: Tier) -> Plan {
         let mut rng = Rng::for_case(seed, "depth", idx);
@@ -101,11 +101,18 @@ impl Scenario for Depth {
         let r = (s.decode)(&bytes, &src, Mode::Decode);
         st.note(salt(&[s.name, &src.describe(), "unlimited", if r.res.is_ok() { "ok" } else { "err" }]), &r.trace, bytes.len() > 1);
         // depth measures from the decoded value
+        // The nesting the decoder has to walk through is that of the *encoding* (map entries
+        // later collapsed as duplicates still have to be decoded), so measure the wire structure.
         let (d_lo, d_hi) = match &r.res {
-            Ok(v) => depths(&s.schema, v),
-            Err(_) => match ref_decode(&s.schema, &bytes) {
-                _ => (0, 6),
+            Ok(v) => match ref_decode_raw(&s.schema, &bytes) {
+                Ok((raw, _)) => {
+                    let (lo, hi) = depths(&s.schema, &raw);
+                    let (_, hi2) = depths(&s.schema, v);
+                    (lo.min(depths(&s.schema, v).0), hi.max(hi2))
+                },
+                Err(_) => depths(&s.schema, v),
             },
+            Err(_) => (0, 6),
         };
         if d_lo > d_hi {
             panic!("harness: d_lo {} > d_hi {} for {}", d_lo, d_hi, s.name);
